@@ -392,6 +392,10 @@ def run_partition_case(case, prop):
 
     with RNGInjection(case.get("inject")) as inj:
         try:
+            comp_first = None
+            if (case.get("companion") or {}).get("built_first"):
+                comp_first = cls(domain=[list(iv) for iv in case["companion"]["box"]])
+                comp_first._mon_name = name
             dom = [list(iv) for iv in case["box"]]
             if case.get("alias_box"):
                 dom = [dom[0]] * len(dom)
@@ -402,9 +406,27 @@ def run_partition_case(case, prop):
             return {"viol": [v for v in viol if v["pred"].startswith(prop)], "obs": {}, "nontrivial": False}
         P._mon_name = name
         e0, i0 = _contract_state["evals"], _contract_state["inv_evals"]
+        Q = None
+        comp = case.get("companion")
+        if comp and not comp.get("built_first"):
+            Q = cls(domain=[list(iv) for iv in comp["box"]])
+            Q._mon_name = name
+        elif comp:
+            Q = comp_first
         for step in range(case["steps"]):
             total = sum(len(l) for l in P.node_list)
             try:
+                if Q is not None and rng.random() < 0.6 and sum(len(l) for l in Q.node_list) < 600:
+                    # a second partition of the same class over another box, alive at the same time and grown in
+                    # between (its splits are judged by the same contract): state shared between instances shows here
+                    lvq = [x for l in Q.node_list for x in l if x.children is None]
+                    if rng.random() < 0.3 and len(Q.node_list[-1]) * C.arity(name, len(comp["box"])) < 200:
+                        ops.append("companion.deepen")
+                        Q.deepen()
+                    else:
+                        xq = lvq[int(rng.integers(len(lvq)))]
+                        ops.append("companion.split(%d,%d)" % (xq.depth, xq.index))
+                        Q.make_children(xq, newlayer=xq.depth >= Q.depth)
                 if rng.random() < case.get("p_deepen", 0.3) and len(P.node_list[-1]) * C.arity(name, len(case["box"])) + total < case.get("max_nodes", 400):
                     pars = list(P.node_list[-1])
                     ops.append("deepen")
